@@ -37,6 +37,7 @@ feature kern {
   lookup ml { pos ligature d <anchor 1 2> mark @TOP ligComponent <anchor 3 4> mark @TOP; pos ligature c <anchor 5 6> mark @TOP;} ml;
   lookup mm { pos mark e <anchor 9 9> mark @TOP; pos mark f <anchor 8 8> mark @TOP;} mm;
   lookup ccp { pos [a d]' lookup sp1 [b c]' [e f]; pos c d' lookup sp2 a;} ccp;
+  lookup ccp1 { pos a' lookup sp1 [d c b]' [f e]; } ccp1;
 } kern;
 feature liga {
   lookup ss { sub a by b; sub d by c; } ss;
@@ -45,8 +46,11 @@ feature liga {
   lookup lig { sub a b by c; sub d a by e; sub d c b by f; sub a d by b;} lig;
   lookup ccs { sub [d a]' lookup ss [c b]'; sub e c' lookup ss d;} ccs;
   lookup rcs { rsub [a d] [d b]' [c e] by [c f]; } rcs;
+  lookup ccs1 { sub a' lookup ss [d c b]' [f e]; } ccs1;
+  lookup rcs1 { rsub a [d b]' [e c] by [c f]; } rcs1;
 } liga;
 """
+# (ccp1 / ccs1 / rcs1: in a list of coverages a single-glyph coverage comes *before* coverages with several glyphs)
 
 
 # the same kinds of lookups, but in every coverage-parallel array two glyphs carry *equal* entries and a third a different one
@@ -291,8 +295,8 @@ def make(n_glyphs=6, dup=False):
     gdef.MarkAttachClassDef = _classdef({"e": 1, "f": 2})
     mgs = ot.MarkGlyphSetsDef()
     mgs.MarkSetTableFormat = 1
-    mgs.Coverage = [_cov(["e", "f"]), _cov(["a", "c", "f"])]
-    mgs.MarkSetCount = 2
+    mgs.Coverage = [_cov(["e"]), _cov(["e", "f"]), _cov(["a", "c", "f"])]
+    mgs.MarkSetCount = 3
     gdef.MarkGlyphSetsDef = mgs
     gdef.Version = 0x00010002
     b = io.BytesIO()
